@@ -865,13 +865,16 @@ where
     A: ArrayValidExt + ArrayFromDataExt,
 {
     assert_eq!(a.len(), b.len());
+    // Value and validity follow the branch that is taken: `a` where the condition is true, `b`
+    // where it is false or NULL.
+    let s_true = s.to_raw_bitvec().and(s.get_valid_bitmap());
     let it = a
         .raw_iter()
         .zip(b.raw_iter())
-        .zip(s.raw_iter())
+        .zip(s_true.iter())
         .map(|((a, b), s)| if *s { a } else { b });
-    let mut valid = s.get_valid_bitmap().and(a.get_valid_bitmap());
-    valid.or(&s.get_valid_bitmap().not_then_and(b.get_valid_bitmap()));
+    let mut valid = s_true.and(a.get_valid_bitmap());
+    valid.or(&s_true.not_then_and(b.get_valid_bitmap()));
     A::from_data(it, valid)
 }
 
